@@ -527,7 +527,11 @@ MonStep(m0, step, C) ==
       r10e == IF "twin" \in checks /\ o.fault = "" /\ r10d.np >= 2 /\ GetI(r10d.hend, 1) = 0 /\ GetI(r10d.hend, 2) = 0
                  /\ (GetS(r10d.plog, 1) # GetS(r10d.plog, 2) \/ GetS(r10d.pat, 1) # GetS(r10d.pat, 2))
               THEN AddBad(r10d, "C13") ELSE r10d
-      r11 == Flag(r10e, "C08" \in checks /\ o.fault = "" /\ ~C08Check(r10, o), "C08", checks)
+      (* C13 for from_future: every subscription polls the future to its result itself (the scripted future counts the  *)
+      (* times it yields its result): as many results yielded as there are subscribers that have been served           *)
+      served == Cardinality({p \in 1..r10e.np : GetS(r10e.plog, p) # <<>>})
+      r10f == IF "twinfut" \in checks /\ o.fault = "" /\ o.cnt[CntFn] # served THEN AddBad(r10e, "C13") ELSE r10e
+      r11 == Flag(r10f, "C08" \in checks /\ o.fault = "" /\ ~C08Check(r10, o), "C08", checks)
   IN [r11 EXCEPT !.lastcnt = o.cnt, !.gt = Pad(@, Len(r11.g), m.now)]
 
 RECURSIVE MonRun(_, _, _)
